@@ -14,7 +14,7 @@ from vf.harness import assemble
 LEVEL = "fault_enumeration"
 RULE = (
     "fault enumeration: valid generated programs rendered with random comments, blank lines, indentation, multi-line /* */ comments, "
-    "blocks, macro definitions and (nested) .include files x 24 classes of erroneous statement (undefined symbol in an operand / in a data "
+    "blocks, macro definitions and (nested) .include files x 27 classes of erroneous statement (undefined symbol in an operand / in a data "
     "directive / in a data list continued over two lines, unterminated string with an escaped quote followed by lines holding quote characters, bad size suffix, bad outer / inner index register, unterminated string before a newline / at end of input, size suffix "
     "missing at end of line) inserted at every statement position (thorough) or 8 positions (quick), in the main file and in included "
     "files; the reported file, zero-based line, quoted line text and (lexical errors) column are judged against the known insertion point; "
@@ -60,6 +60,14 @@ FAULTS = {
     # the error is where the statement is written
     "undefined_operand_in_macro_applied_elsewhere": ("node_applied", ".macro lib_zz9(pa) {\nlda.w undefined_zz9\n.db pa\n}", None, 0, 1),
     "undefined_data_in_macro_applied_elsewhere": ("node_applied", ".macro lib_zz9(pa) {\n.db pa\n.dw undefined_zz9 + pa\n}", None, 0, 2),
+    # the index register forgotten at the end of the line: the position is where the register letter belongs, on that line
+    # (blanks may follow the comma: any column from behind the comma to the end of the line names that place)
+    "index_missing_at_eol": ("scan_to_eol", "lda 0x10,", ",", 1),
+    "index_missing_after_indirect_at_eol": ("scan_to_eol", "sta (0x20),", "),", 2),
+    # two included files with different names and the same text; the statement is fine in the first (its scope defines the name) and fails in
+    # the second: the error names the second file
+    "undefined_operand_in_second_of_two_identical_files": ("node_elsewhere", ".scope v1_zz9 {\nreg_zz9 = 0x2100\n.include 'v1_zz9/regs.s'\n}\n.scope v2_zz9 {\n.include 'v2_zz9/regs.s'\n}", None, 0, 0,
+                                                           ("v2_zz9/regs.s", 1, {"v1_zz9/regs.s": "; registers\nsta.w reg_zz9\nrts\n", "v2_zz9/regs.s": "; registers\nsta.w reg_zz9\nrts\n"})),
     "unterminated_string_escaped_quote": ("scan", ".ascii 'Don\\'t panic\n.ascii 'Bye'\nrts ; that's all", "'Don", 0),
 }
 LOC_RE = re.compile(r"(?P<file>[\w./-]+):(?P<line>-?\d+)(?::(?P<col>-?\d+))?")
@@ -106,6 +114,13 @@ def check_case(res: Res, p: dict, name: str, where: tuple[list, int], lay_seed: 
         fname = rd.stmt_file.get(id(fault), "t.s")
         main = "\n".join(rd.lines)
         files = dict(rd.files)
+        elsewhere = None
+        if kind == "node_elsewhere":
+            # the statement that fails stands in a file the inserted text includes
+            kind = "node"
+            elsewhere = FAULTS[name][5]
+            files.update(elsewhere[2])
+            fname, line = elsewhere[0], elsewhere[1]
     finally:
         if applied:
             p["prog"].pop()
@@ -120,7 +135,7 @@ def check_case(res: Res, p: dict, name: str, where: tuple[list, int], lay_seed: 
         res.count("uniformly_indented_sources")
     file_text = main if fname == "t.s" else files[fname].rstrip("\n")
     flines = file_text.split("\n")
-    if line >= len(flines) or text.split("\n")[loff] not in flines[line]:
+    if line >= len(flines) or (elsewhere is None and text.split("\n")[loff] not in flines[line]):
         res.count("harness_bookkeeping_skipped")      # the insertion point could not be located in the rendered file: not a case
         return
     if kind == "scan_eof":
@@ -163,16 +178,19 @@ def check_case(res: Res, p: dict, name: str, where: tuple[list, int], lay_seed: 
     locs = [(m.group("file"), int(m.group("line")), int(m.group("col")) if m.group("col") is not None else None) for m in LOC_RE.finditer(etext)]
     locs = [l for l in locs if l[0].endswith(".s")]
     want_col = None if kind == "node" else want_text.index(marker) + moff
+    col_ok = (lambda c: True) if want_col is None else (lambda c: c == want_col)  # noqa: E731
+    if kind == "scan_to_eol":
+        col_ok = lambda c: c is not None and want_col <= c <= len(want_text)  # noqa: E731
     if not locs:
         # another arrangement of the message: the file name, the line number and (lexical errors) the column still have to be in it
         nums = {int(x) for x in re.findall(r"(?<![\w.])-?\d+(?![\w.])", etext)}
         base = fname.rsplit("/", 1)[-1]
-        if base in etext and any(line + k in nums for k in range(span)) and (want_col is None or want_col in nums):
+        if base in etext and any(line + k in nums for k in range(span)) and (want_col is None or any(col_ok(n) for n in nums)):
             res.count("location_found_in_free_form_message")
             return
         res.violate("no-location", f"{name}: the error carries no <file>:<line> location: {etext[:200]!r}", wit)
         return
-    good = [l for l in locs if l[0] == fname and line <= l[1] < line + span and (want_col is None or l[2] == want_col)]
+    good = [l for l in locs if l[0] == fname and line <= l[1] < line + span and col_ok(l[2])]
     if not good:
         got = locs[0]
         res.violate(classify(name, got[1], line, got[2]),
@@ -201,7 +219,7 @@ def check_case(res: Res, p: dict, name: str, where: tuple[list, int], lay_seed: 
             if not flocs:
                 res.count("front_end_without_location_unjudged")
                 continue
-            if not [l for l in flocs if l[0] == fname and l[1] == line and (want_col is None or l[2] == want_col)]:
+            if not [l for l in flocs if l[0] == fname and l[1] == line and col_ok(l[2])]:
                 got = flocs[0]
                 res.violate("wrong-location", f"{name} through the {front} front end: reported {got[0]}:{got[1]}" + (f":{got[2]}" if got[2] is not None else "") +
                             f", the offending statement is at {fname}:{line}" + (f":{want_col}" if want_col is not None else "") + f" in {want_text!r}", dict(wit, front=front))
@@ -225,7 +243,7 @@ def run_shard(shard: dict) -> Res:
                     p["prog"] = ex
         for name, (kind, *_rest) in FAULTS.items():
             pts = positions(p["prog"])
-            if kind in ("node", "node2"):
+            if kind in ("node", "node2", "node_applied", "node_elsewhere"):
                 pts = [w for w in pts if reachable(p["prog"], w[0])]
             if kind == "scan_eof":
                 pts = [w for w in pts if w[1] == len(w[0]) and (w[0] is p["prog"] or any(st["k"] == "include" and st["b"] is w[0] for st, _, _ in walk(p["prog"])))]
